@@ -297,7 +297,8 @@ class PopAllLoop:
 
 class ZipUpdate(NodeUpdate):
     cls = 'zip'
-    props = ['C01', 'C02', 'C03', 'C04', 'C05', 'C10']
+    # C06/C07/C11/C12: operations between two streaming dataframes (map_partitions with several streams) go through `zip`
+    props = ['C01', 'C02', 'C03', 'C04', 'C05', 'C10', 'C06', 'C07', 'C11', 'C12']
     data_fields = ()
     inline = ('zip.condition',)
     abstracted = ('zip.update: the loop `for buf in self.buffers.values(): buf.popleft()` is summarised by its pointwise effect '
